@@ -311,6 +311,7 @@ pub fn run(tier: Tier) -> Report {
             crate::fam::with_defs(2, 2, 1, &mut |g| push(g));
             crate::fam::order_sensitive(&mut |g| push(g));
             crate::fam::nested_words(&mut |g| push(g));
+            crate::fam::deep_shapes(&mut |g| push(g));
             crate::fam::single_call(crate::fam::v0(), k, &mut |g| push(g));
         },
         || Acc { samples: Some(Samples::new(3)), ..Default::default() },
